@@ -1,9 +1,17 @@
 // C19 conformance harness: drives fcppt::log::context / fcppt::log::object and records what
 // they did.  It contains no expected values: spec/LogTrace.tla (TLC) is the judge.
 //
-//   c19_log record  OUT seed histories maxlen          sequential random histories
-//   c19_log replay  SCRIPTS.ndjson OUT                 sequential TLC-generated scripts
-//   c19_log threads OUT seed runs windows maxcalls     threaded driver (2-6 threads on one context)
+//   c19_log record  OUT seed histories maxlen [first [recs]]   sequential random histories
+//   c19_log replay  SCRIPTS.ndjson OUT [first]                 sequential TLC-generated scripts
+//   c19_log threads OUT seed runs windows maxcalls [first]     threaded driver (2-6 threads on one context)
+//
+// `first`: index of the first history / script / run to execute (the check restarts the harness behind a
+// history in which the code under test crashed or hung); `recs` = 0: no independent call records.
+// Built with -DC19_CORE_ONLY only what the statement of C19 names is compiled (context::set/get, the
+// three object constructors, level, enabled, log); the observed-only parts (call records, accessors,
+// FCPPT_LOG_* macros) are left out, so that a tree in which one of THOSE no longer compiles is still
+// judged on the in-scope part.
+// Every driven call runs under alarm(): a hang of the code under test ends the process with rc 68.
 //
 // Sequential events: after every call the harness reads back context::get for every location of
 // the universe (depth <= 3, three names) and object::level of every object slot, so that the
@@ -19,10 +27,6 @@
 #include <fcppt/string.hpp>
 #include <fcppt/enum/array_init.hpp>
 #include <fcppt/log/context.hpp>
-#include <fcppt/log/debug.hpp>
-#include <fcppt/log/error.hpp>
-#include <fcppt/log/fatal.hpp>
-#include <fcppt/log/info.hpp>
 #include <fcppt/log/level.hpp>
 #include <fcppt/log/level_stream.hpp>
 #include <fcppt/log/level_stream_array.hpp>
@@ -32,6 +36,11 @@
 #include <fcppt/log/optional_level.hpp>
 #include <fcppt/log/out.hpp>
 #include <fcppt/log/parameters.hpp>
+#if !defined(C19_CORE_ONLY)
+#include <fcppt/log/debug.hpp>
+#include <fcppt/log/error.hpp>
+#include <fcppt/log/fatal.hpp>
+#include <fcppt/log/info.hpp>
 #include <fcppt/log/verbose.hpp>
 #include <fcppt/log/warning.hpp>
 #include <fcppt/log/default_level_streams.hpp>
@@ -46,6 +55,7 @@
 #include <fcppt/log/format/time_stamp.hpp>
 #include <fcppt/io/cerr.hpp>
 #include <fcppt/io/clog.hpp>
+#endif
 #include <fcppt/log/format/default_level.hpp>
 #include <fcppt/log/format/function.hpp>
 #include <fcppt/log/format/inserter.hpp>
@@ -72,10 +82,16 @@ namespace fl = fcppt::log;
 using path = std::vector<std::string>;
 
 // ---------------------------------------------------------------- conversions (no semantics)
+// an EMPTY optional_level is logged as 6; a present level as its enumerator value 0..5.  A present value
+// that is no enumerator (garbage, or the integer the library uses internally for "none" leaking out as a
+// level) is logged as 100 + value (clamped), so that it can never be mistaken for "none"
 int level_to_int(fl::optional_level const &l)
 {
   return fcppt::optional::maybe(
-      l, [] { return 6; }, [](fl::level v) { return static_cast<int>(v); });
+      l, [] { return 6; }, [](fl::level v) {
+        long long const i = static_cast<long long>(v);
+        return i >= 0 && i <= 5 ? static_cast<int>(i) : 100 + static_cast<int>(std::min(std::max(i, 0LL), 1000000LL));
+      });
 }
 fl::optional_level int_to_level(int v)
 {
@@ -166,6 +182,7 @@ fl::format::optional_function object_formatter(std::string const &prefix)
 // FCPPT_LOG_* macros ("the construction of the log message is avoided altogether when debug is
 // not enabled") becomes observable
 int g_evals = 0;
+unsigned call_alarm_s = 30; // watchdog per driven call incl. the read-back (the box may be heavily loaded)
 std::string const &counted(std::string const &m)
 {
   ++g_evals;
@@ -190,7 +207,9 @@ constexpr int NO = 4; // object slots
 
 struct Seq
 {
-  std::vector<std::string> names{"a", "b", "cc"};
+  // "a" / "ab" share a prefix and the first character, "ab" / "b" the last one, "a" / "b" the length:
+  // a name comparison that looks at less than the whole name confuses two of them
+  std::vector<std::string> names{"a", "ab", "b"};
   std::vector<path> univ = make_universe(names, 3);
   sinks sk;
   std::unique_ptr<fl::context> ctx;
@@ -231,8 +250,13 @@ struct Seq
     return ",\"lv\":" + vj::arr(lv) + ",\"ol\":" + vj::arr(ol);
   }
 
-  void exec(Op const &a)
+  // false: the call (or the read-back after it) threw - the event is logged with "exc" instead of
+  // results and the caller abandons the history (the check rejects the event, C19:<op>:exception)
+  bool exec(Op const &a)
   {
+#if defined(C19_CORE_ONLY)
+    if (a.op == "logm" || a.op == "acc") return true; // observed-only operations are not compiled in
+#endif
     vj::J pre;
     pre.kv("e", "op").kv("op", a.op).raw("loc", path_json(a.loc)).kv("l", a.l).kv("o", a.o)
         .kv("kind", a.kind).kv("par", a.par).raw("name", vj::cps(a.name)).raw("fmt", vj::cps(a.fmt))
@@ -245,6 +269,10 @@ struct Seq
     std::string acc_text;
     g_evals = 0;
     auto const oi = static_cast<std::size_t>(a.o);
+    std::string rest;
+    ::alarm(call_alarm_s);
+    try
+    {
     if (a.op == "set")
       ctx->set(to_location(a.loc), int_to_level(a.l));
     else if (a.op == "get")
@@ -253,9 +281,13 @@ struct Seq
     {
       objs[oi].reset();
       // parameters.hpp / parameters_no_function.hpp: the two ways to make parameters
+#if defined(C19_CORE_ONLY)
+      fl::parameters params{fl::name{a.name}, object_formatter(a.fmt)};
+#else
       fl::parameters params = a.fmt.empty() && (a.o % 2 == 1)
                                   ? fl::parameters_no_function(fl::name{a.name})
                                   : fl::parameters{fl::name{a.name}, object_formatter(a.fmt)};
+#endif
       if (a.kind == "ctx")
         objs[oi] = std::make_unique<fl::object>(fcppt::make_ref(*ctx), params);
       else if (a.kind == "loc")
@@ -268,7 +300,17 @@ struct Seq
     else if (a.op == "enabled")
       rb = objs[oi]->enabled(static_cast<fl::level>(a.l));
     else if (a.op == "log")
-      objs[oi]->log(static_cast<fl::level>(a.l), fl::out << counted(a.msg));
+    {
+      // messages of >= 2 characters are inserted in two / three pieces (out << x << y << z): both
+      // operator<< overloads of temporary_output are driven; the recorded message is the whole text
+      if (a.msg.size() >= 3)
+        objs[oi]->log(static_cast<fl::level>(a.l), fl::out << counted(a.msg).substr(0, 1) << a.msg[1] << a.msg.substr(2));
+      else if (a.msg.size() == 2)
+        objs[oi]->log(static_cast<fl::level>(a.l), fl::out << counted(a.msg).substr(0, 1) << a.msg.substr(1));
+      else
+        objs[oi]->log(static_cast<fl::level>(a.l), fl::out << counted(a.msg));
+    }
+#if !defined(C19_CORE_ONLY)
     else if (a.op == "logm")
     {
       fl::object &ob = *objs[oi];
@@ -296,12 +338,13 @@ struct Seq
       for (int i = 0; i < 6; ++i)
         if (&ls[static_cast<fl::level>(i)] == &sk_) acc_idx = i;
     }
+#endif
     else
     {
       std::fprintf(stderr, "unknown op %s\n", a.op.c_str());
       std::exit(3);
     }
-    std::string rest = ",\"ret\":" + std::to_string(ret) + ",\"rb\":" + (rb ? "true" : "false") + ",\"ev\":" +
+    rest = ",\"ret\":" + std::to_string(ret) + ",\"rb\":" + (rb ? "true" : "false") + ",\"ev\":" +
                        std::to_string(g_evals) + ",\"hasf\":" + (acc_has ? "true" : "false") + ",\"ft\":" + vj::cps(acc_text) +
                        ",\"lss\":" + (acc_same ? "true" : "false") + ",\"si\":" + std::to_string(acc_idx) + ",\"out\":[";
     for (std::size_t i = 0; i < 6; ++i)
@@ -313,7 +356,24 @@ struct Seq
     rest += "]";
     rest += readback();
     rest += "}";
+    }
+    catch (std::exception const &ex)
+    {
+      ::alarm(0);
+      vj::end_call(",\"exc\":\"" + vj::esc((std::string(typeid(ex).name()) + ": " + ex.what()).substr(0, 200)) + "\"}");
+      for (auto &s_ : sk.s) s_.str(std::string());
+      return false;
+    }
+    catch (...)
+    {
+      ::alarm(0);
+      vj::end_call(",\"exc\":\"unknown exception type\"}");
+      for (auto &s_ : sk.s) s_.str(std::string());
+      return false;
+    }
+    ::alarm(0);
     vj::end_call(rest);
+    return true;
   }
 
   // length of the path an object slot refers to is tracked only to keep the generated
@@ -392,6 +452,7 @@ struct Seq
   }
 };
 
+#if !defined(C19_CORE_ONLY)
 // ---------------------------------------------------------------- independent call records
 // ("e":"rec"): the rest of fcppt.log behind the property - level names, default streams, formatter
 // functions and their composition, level_stream as a sink machine, parameters.  Judged by
@@ -665,6 +726,44 @@ void emit_random_recs(vj::Rng &r)
   }
 }
 
+#endif // !C19_CORE_ONLY
+
+std::vector<Op> directed_none(long const h)
+{
+  std::vector<Op> ops;
+  path const full{"a", "ab", "b"};
+  path const loc(full.begin(), full.begin() + static_cast<long>((h / 2) % 4)); // depth 0..3
+  path const where(loc.begin(), loc.begin() + static_cast<long>(std::min<std::size_t>(loc.size(), 2)));
+  auto mk = [](char const *op) { Op a; a.op = op; return a; };
+  if (h % 2 == 1)
+  {
+    Op a = mk("set");
+    a.loc = loc;
+    a.l = 6;
+    ops.push_back(a);
+  }
+  {
+    Op a = mk("create"); a.o = 1; a.kind = "ctx"; a.name = where.empty() ? "a" : where[0]; ops.push_back(a);
+    Op b = mk("create"); b.o = 2; b.kind = "loc"; b.loc = where; b.name = "b"; b.fmt = "O2| "; ops.push_back(b);
+    Op c = mk("create"); c.o = 3; c.kind = "parent"; c.par = 1; c.name = where.size() >= 2 ? where[1] : "ab"; ops.push_back(c);
+  }
+  for (int o = 1; o <= 3; ++o)
+  {
+    Op lv = mk("level"); lv.o = o; ops.push_back(lv);
+    for (int l = 0; l < 6; ++l)
+    {
+      Op e = mk("enabled"); e.o = o; e.l = l; ops.push_back(e);
+      Op g = mk("log"); g.o = o; g.l = l; g.msg = "mno"; ops.push_back(g);
+      Op m = mk("logm"); m.o = o; m.l = l; m.msg = "n"; ops.push_back(m);
+    }
+  }
+  {
+    Op g = mk("get"); g.loc = loc; ops.push_back(g);
+    Op g2 = mk("get"); g2.loc = where; g2.loc.push_back("b"); ops.push_back(g2);
+  }
+  return ops;
+}
+
 Op op_from_json(vj::V const &e)
 {
   Op a;
@@ -731,7 +830,7 @@ constexpr int OPT = 2; // object slots per thread
 
 struct Shared
 {
-  std::vector<std::string> names{"a", "b", "c"};
+  std::vector<std::string> names{"a", "ab", "b"};
   std::vector<path> univ = make_universe(names, 3);
   sinks sk;
   std::unique_ptr<fl::context> ctx;
@@ -740,6 +839,49 @@ struct Shared
   std::vector<std::array<std::size_t, OPT>> depth;
   std::vector<std::vector<Call>> calls; // per thread, current window
 };
+
+// which public call every thread is inside (0 = none), for the report of a crash / hang: written
+// before the begin stamp and cleared after the end stamp (relaxed: no happens-before edge is added)
+std::array<std::atomic<int>, 8> in_call{};
+unsigned run_alarm_s = 60;
+char const *const call_names[] = {"", "set", "get", "create", "level", "enabled"};
+int call_code(std::string const &op)
+{
+  for (int i = 1; i <= 5; ++i) if (op == call_names[i]) return i;
+  return 0;
+}
+void report_pending()
+{
+  char buf[200];
+  int n = std::snprintf(buf, sizeof buf, "\nC19-PENDING-CALLS");
+  for (auto const &c : in_call)
+  {
+    int const k = c.load(std::memory_order_relaxed);
+    if (k > 0 && k <= 5 && n < 180) n += std::snprintf(buf + n, sizeof buf - static_cast<std::size_t>(n), " %s", call_names[k]);
+  }
+  if (n < 198) buf[n++] = '\n';
+  ssize_t const w = ::write(2, buf, static_cast<std::size_t>(n));
+  (void)w;
+}
+void pending_on_signal(int sig)
+{
+  report_pending();
+  vj::on_signal(sig);
+}
+void pending_on_terminate()
+{
+  report_pending();
+  vj::on_terminate();
+}
+void install_pending_reporter()
+{
+  std::set_terminate(pending_on_terminate);
+  std::signal(SIGALRM, pending_on_signal);
+  std::signal(SIGABRT, pending_on_signal);
+#if !defined(C19_TSAN)
+  std::signal(SIGSEGV, pending_on_signal);
+#endif
+}
 
 bool no_focus = false;       // experiment switch (env C19_NOFOCUS=1)
 long jitter_max = 400;       // experiment switch (env C19_JITTER=n): longest random spin between calls
@@ -871,6 +1013,8 @@ void thread_window(Shared &sh, int t, vj::Rng &r, int ncalls, path const &focus,
     fl::location const loc = to_location(a.loc);
     fl::optional_level const lvl = int_to_level(a.l);
     std::size_t const slot = a.o > 0 ? static_cast<std::size_t>((a.o - 1) % OPT) : 0;
+    std::atomic<int> &mark = in_call[static_cast<std::size_t>(t) % in_call.size()];
+    int const code = call_code(a.op);
     if (c == 0 || per_call_line)
     {
       long const target = call_base + static_cast<long>((per_call_line ? c : 0) + 1) * sh.nt;
@@ -880,6 +1024,7 @@ void thread_window(Shared &sh, int t, vj::Rng &r, int ncalls, path const &focus,
       if (spins >= 400000) call_line_timeouts.fetch_add(1, std::memory_order_relaxed);
     }
     spin(r);
+    mark.store(code, std::memory_order_relaxed);
     if (a.op == "set")
     {
       call.sb = global_seq.fetch_add(1, seq_order);
@@ -936,6 +1081,7 @@ void thread_window(Shared &sh, int t, vj::Rng &r, int ncalls, path const &focus,
       call.se = global_seq.fetch_add(1, seq_order);
       call.rb = res;
     }
+    mark.store(0, std::memory_order_relaxed);
     sh.calls[static_cast<std::size_t>(t)].push_back(std::move(call));
     spin(r);
   }
@@ -1054,9 +1200,21 @@ int main(int argc, char **argv)
     std::uint64_t const seed = std::strtoull(argv[3], nullptr, 10);
     long const hist = std::strtol(argv[4], nullptr, 10);
     long const maxlen = std::strtol(argv[5], nullptr, 10);
+    long const first = argc >= 7 ? std::strtol(argv[6], nullptr, 10) : 0;
+    bool recs = argc >= 8 ? std::strtol(argv[7], nullptr, 10) != 0 : true;
+#if defined(C19_CORE_ONLY)
+    recs = false;
+#endif
     Seq s;
-    emit_exhaustive_recs();
-    for (long h = 0; h < hist; ++h)
+#if !defined(C19_CORE_ONLY)
+    if (recs && first == 0)
+    {
+      ::alarm(120);
+      emit_exhaustive_recs();
+      ::alarm(0);
+    }
+#endif
+    for (long h = first; h < hist; ++h)
     {
       vj::Rng r(seed * 1000003ULL + static_cast<std::uint64_t>(h));
       std::array<lfmt, 6> lf;
@@ -1071,15 +1229,36 @@ int main(int argc, char **argv)
         }
       }
       s.depth.fill(0);
-      s.reset(h, static_cast<int>(r.below(7)), lf);
+      int const drawn_root = static_cast<int>(r.below(7));
+      s.reset(h, h < 8 && h % 2 == 0 ? 6 : drawn_root, lf);
+      if (h < 8)
+      {
+        // directed histories around the optional level "none" (no expected values, only a fixed sequence
+        // of calls): even h - the context is constructed disabled; odd h - set(none) on a location of
+        // depth 0..3; then one object through each constructor and, on each of them, level(), enabled(l),
+        // log(l) and the macro for EVERY level l, and get of the location.  The random histories reach
+        // these combinations only by luck.
+        for (Op const &a : directed_none(h))
+          if (!s.exec(a)) break;
+      }
+      else
+      {
       long const len = 1 + static_cast<long>(r.below(static_cast<std::uint64_t>(maxlen)));
       for (long i = 0; i < len; ++i)
       {
         Op a;
         if (!s.gen(r, a)) break;
-        s.exec(a);
+        if (!s.exec(a)) break;
       }
-      for (int i = 0; i < 4; ++i) emit_random_recs(r);
+      }
+#if !defined(C19_CORE_ONLY)
+      if (recs)
+      {
+        ::alarm(call_alarm_s);
+        for (int i = 0; i < 4; ++i) emit_random_recs(r);
+        ::alarm(0);
+      }
+#endif
     }
     for (auto &o : s.objs) o.reset();
     vj::close();
@@ -1091,8 +1270,11 @@ int main(int argc, char **argv)
     vj::open(argv[3]);
     Seq s;
     long h = 0;
+    long const first = argc >= 5 ? std::strtol(argv[4], nullptr, 10) : 0;
+    long idx = -1;
     for (auto const &l : lines)
     {
+      if (++idx < first) continue;
       vj::VP script = vj::parse(l);
       bool started = false;
       for (auto const &e : script->a)
@@ -1112,16 +1294,18 @@ int main(int argc, char **argv)
               ++i;
             }
           }
-          s.reset(h++, static_cast<int>(e->num("l")), lf);
+          s.reset(idx, static_cast<int>(e->num("l")), lf);
+          ++h;
           started = true;
           continue;
         }
         if (!started)
         {
-          s.reset(h++, 2, default_lf());
+          s.reset(idx, 2, default_lf());
+          ++h;
           started = true;
         }
-        s.exec(op_from_json(*e));
+        if (!s.exec(op_from_json(*e))) break;
       }
     }
     for (auto &o : s.objs) o.reset();
@@ -1138,7 +1322,14 @@ int main(int argc, char **argv)
     per_call_line = std::getenv("C19_CALL_LINE") != nullptr;
     no_focus = std::getenv("C19_NOFOCUS") != nullptr;
     if (char const *j = std::getenv("C19_JITTER")) jitter_max = std::strtol(j, nullptr, 10);
-    for (long run = 0; run < runs; ++run) run_threads(seed, run, windows, maxcalls);
+    long const first = argc >= 8 ? std::strtol(argv[7], nullptr, 10) : 0;
+    install_pending_reporter();
+    for (long run = first; run < runs; ++run)
+    {
+      ::alarm(run_alarm_s); // watchdog: a run is 10 windows of a few calls per thread (milliseconds)
+      run_threads(seed, run, windows, maxcalls);
+      ::alarm(0);
+    }
     std::fprintf(stderr, "call-line timeouts: %ld of %ld arrivals\n", call_line_timeouts.load(), call_line.load());
     vj::close();
     return 0;
